@@ -14,6 +14,7 @@ listed here raises Unsupported with the place), constants are folded from the AS
   the length each setter demands;
 * Record.__setattr__: the guard, the conversion, and that the one store comes after the conversion;
 * GroupedRecord.__setattr__: a member's field goes to setattr(member, attr, val);
+* base.fieldtype (behavioural, two fresh interpreters): the list class of every whitelist entry converts to that entry's class;
 * typedlist.__init__ / _convert;
 * datetime.__new__: `tzinfo = arg.tzinfo or UTC` and the final `if obj.tzinfo is None: ... replace(tzinfo=UTC)`;
 * net.ipaddress / net.ipnetwork: the constructor is exactly ip_address(addr) / ip_network(addr).
@@ -24,7 +25,7 @@ import ast
 import inspect
 import textwrap
 
-from vf.coqlit import cbool, cZ
+from vf.coqlit import cbool, cstr, cZ
 from vf.factlib import GEN, HEADER, Unsupported, write_if_changed
 
 
@@ -448,6 +449,50 @@ def grouped_facts(base):
     return delegates
 
 
+LIST_CLASS_PROBE = r"""
+import json, sys, warnings
+warnings.simplefilter("ignore")
+from flow.record.whitelist import WHITELIST
+from flow.record.base import fieldtype
+names = list(WHITELIST)
+if sys.argv[1] == "reverse":
+    names.reverse()
+lists = {}
+for n in names:
+    try:
+        lists[n] = fieldtype(n + "[]")
+    except Exception:
+        lists[n] = None
+out = {}
+for n in names:
+    l = lists[n]
+    out[n] = bool(l is not None and isinstance(l, type) and issubclass(l, list) and l.__type__ is fieldtype(n)
+                  and all(l is not m for k, m in lists.items() if k != n and m is not None and fieldtype(k) is not fieldtype(n)))
+print("@@" + json.dumps(out))
+"""
+
+
+def list_class_table():
+    """behavioural fact: after resolving every whitelisted list type (forward / reverse order, each in a fresh
+    interpreter) fieldtype(T + '[]') is a list class of its own whose element class is fieldtype(T)"""
+    import json
+    import subprocess
+    import sys
+    from flow.record.whitelist import WHITELIST
+    table = {}
+    for order in ("forward", "reverse"):
+        p = subprocess.run([sys.executable, "-c", LIST_CLASS_PROBE, order], stdout=subprocess.PIPE, stderr=subprocess.STDOUT,
+                           text=True, timeout=120)
+        res = None
+        for ln in p.stdout.splitlines():
+            if ln.startswith("@@"):
+                res = json.loads(ln[2:])
+        if res is None:
+            raise Unsupported("the list-class probe did not run (%s order): %s" % (order, p.stdout[-300:]))
+        table[order] = res
+    return [(n, table["forward"].get(n, False), table["reverse"].get(n, False)) for n in WHITELIST]
+
+
 def typedlist_facts(ft):
     cls = ft.typedlist
     fn = cls._convert
@@ -639,12 +684,13 @@ def gen_coerce():
     arg_utc, final_utc = datetime_facts(ft)
     ip_facts(ip)
     grouped = grouped_facts(base)
+    ltable = list_class_table()
 
     def cbound(b):
         return "{| b_lo := %s; b_lo_op := %s; b_hi := %s; b_hi_op := %s |}" % (cZ(b[0]), b[1], cZ(b[2]), b[3])
 
     out = HEADER
-    out += "From Coq Require Import List Bool ZArith.\nImport ListNotations.\nFrom FR Require Import Coerce.\n\n"
+    out += "From Coq Require Import List Bool ZArith String.\nImport ListNotations.\nFrom FR Require Import Coerce.\n\n"
     out += "(* flow/record/fieldtypes/__init__.py, flow/record/base.py: see tools/vf/factgen/c05.py for what each field is read from *)\n"
     out += "Definition gen_facts : facts :=\n  {| f_uint16 := %s;\n     f_uint32 := %s;\n     f_boolean := %s;\n" % (
         cbound(bounds["uint16"]), cbound(bounds["uint32"]), cbound(bounds["boolean"]))
@@ -654,8 +700,12 @@ def gen_coerce():
     out += "     f_digest_len := (%s, %s, %s);\n     f_digest_else_empty := %s;\n" % (cZ(lens[0]), cZ(lens[1]), cZ(lens[2]), cbool(else_empty))
     out += "     f_sa_guard_none := %s;\n     f_sa_convert_before_store := %s;\n" % (cbool(guard_none), cbool(before))
     out += "     f_tl_convert := %s;\n     f_tl_falsy_empty := %s;\n" % (cbool(tl_convert), cbool(tl_falsy))
-    out += "     f_dt_arg_utc := %s;\n     f_dt_final_utc := %s;\n     f_grouped_delegates := %s |}.\n" % (
-        cbool(arg_utc), cbool(final_utc), cbool(grouped))
+    out += "     f_dt_arg_utc := %s;\n     f_dt_final_utc := %s;\n     f_tl_elem_class := %s;\n     f_grouped_delegates := %s |}.\n" % (
+        cbool(arg_utc), cbool(final_utc), cbool(all(f and r for _, f, r in ltable)), cbool(grouped))
+    out += "\n(* base.fieldtype, observed: whitelist entry T, `fieldtype(T + \"[]\").__type__ is fieldtype(T)` (and the list class is\n"
+    out += "   not shared with another element class) after resolving all entries in forward / in reverse order *)\n"
+    out += "Definition gen_list_class_table : list (string * bool * bool) :=\n  [%s].\n" % ";\n   ".join(
+        "(%s%%string, %s, %s)" % (cstr(n), cbool(f), cbool(r)) for n, f, r in ltable)
     write_if_changed(GEN / "Gen_coerce.v", out)
 
 
